@@ -51,6 +51,9 @@ fp("dask/dataframe/multi.py", "merge_chunk", "_split_partition", "pair_partition
 fp("dask/dataframe/dask_expr/_merge_asof.py", "MergeAsof._lower", "MergeAsofIndexed._layer", "compute_tails", "compute_heads",
    "prefix_reduction", "suffix_reduction", "most_recent_tail", "most_recent_head")
 fp("dask/dataframe/dask_expr/_concat.py", "Concat._lower", "Concat._simplify_up", "Concat._divisions", "StackPartitionInterleaved._layer")
+# C39 extension: the alignment step (Model/AlignDivs.lean)
+fp("dask/dataframe/dask_expr/_expr.py", "calc_divisions_for_align", "maybe_align_partitions", "_single_partition_common_divisions",
+   "MaybeAlignPartitions._divisions", "MaybeAlignPartitions._lower", "OpAlignPartitions._lower")
 # C47
 fp("dask/dataframe/io/csv.py", "pandas_read_text", "coerce_dtypes", "text_blocks_to_pandas", "_read_csv", "read_pandas", "to_csv",
    "_header_row", "block_mask", "block_mask_last", "_write_csv")
